@@ -986,7 +986,7 @@ class Tr:
         sig = "".join(f" ({p} : {LEAN_TY[ty]})" for p, ty in self.spec["params"])
         sig += "".join(f" (v_{x} : {LEAN_TY[ltys[x]]})" for x in passed)
         body = self.run(rest, kenv, "  ")
-        self.aux.append(f"def {kname} (h : Nat → Nat) (t : PTable){self.osig()}{sig} : Option {self.ret_ty()} :=\n" + "\n".join(body) + "\n")
+        self.aux.append(f"@[simp] def {kname} (h : Nat → Nat) (t : PTable){self.osig()}{sig} : Option {self.ret_ty()} :=\n" + "\n".join(body) + "\n")
         out = []
         for l in lines:
             if isinstance(l, list) and l[0] == "JOIN" and any(l is m for m in marks):
